@@ -2,7 +2,7 @@ SPECIFICATION Spec
 CONSTANTS
   Which = "F2zero"
   MaxOps = 2
-  MaxT = 3
+  MaxT = 2
   Slice = 1
 INVARIANT NoOverflow
 INVARIANT Inv_C01_Snapshot
@@ -15,4 +15,5 @@ PROPERTY Act_C02_TradesValueNeutral
 PROPERTY Act_C03_FlowNeutral
 PROPERTY Act_C16_Terminal
 PROPERTY Act_C08_RefreshIdempotent
+VIEW View
 CHECK_DEADLOCK FALSE
